@@ -47,70 +47,70 @@ fn budget(prop: &str, tier: &str) -> (u32, u32, u64) {
             if thorough {
                 (8000, 14, 7200)
             } else {
-                (1008, 14, 900)
+                (2002, 14, 900)
             }
         }
         "C06" => {
             if thorough {
                 (12000, 14, 7200)
             } else {
-                (1008, 14, 900)
+                (2002, 14, 900)
             }
         }
         "C09" | "C10" | "C13" => {
             if thorough {
                 (60000, 14, 7200)
             } else {
-                (6006, 14, 900)
+                (30030, 14, 900)
             }
         }
         "C11" => {
             if thorough {
                 (4000, 14, 7200)
             } else {
-                (1400, 14, 900)
+                (4004, 14, 900)
             }
         }
         "C15" => {
             if thorough {
                 (150000, 14, 7200)
             } else {
-                (10010, 14, 900)
+                (30030, 14, 900)
             }
         }
         "C08" => {
             if thorough {
                 (6000, 14, 7200)
             } else {
-                (1008, 14, 900)
+                (3010, 14, 900)
             }
         }
         "C18" => {
             if thorough {
                 (600, 8, 7200)
             } else {
-                (64, 8, 900)
+                (128, 8, 900)
             }
         }
         "C14" => {
             if thorough {
                 (40000, 14, 7200)
             } else {
-                (5012, 14, 900)
+                (20020, 14, 900)
             }
         }
         "C12" => {
             if thorough {
                 (8000, 14, 7200)
             } else {
-                (1008, 14, 900)
+                (3003, 14, 900)
             }
         }
         "C17" => {
             if thorough {
                 (100000, 14, 7200)
             } else {
-                (6006, 14, 900)
+                (20020, 14, 900)
             }
         }
         _ => (100, 4, 600),
@@ -175,6 +175,7 @@ fn main() {
             let (cases, workers, wd) = budget(&prop, &tier);
             let cases = cases_override.unwrap_or(cases);
             let spec = RunSpec {
+                tolerated_inconclusive_fraction: engine.tolerated_inconclusive_fraction(),
                 prop: prop.clone(),
                 tier: tier.clone(),
                 seed,
